@@ -162,8 +162,6 @@ def check(ck):
         for q, fn in mod.functions.items():
             if not getattr(fn, 'cy_directives', {}) or fn.cy_directives.get('boundscheck') is not False:
                 continue
-            if q == 'bincount2d':
-                continue
             nz += check_zero_before_accumulate(ck, 'C19.D3.zero-first', mod, fn, fused)
             npr += check_prange(ck, 'C19.D5.prange', mod, fn, fused)
     ck.floor('C19.D3.zero-first', nz, 5, 'kernel accumulations')
